@@ -44,7 +44,13 @@ func (r *histRun) rawWrite(op M) {
 			}
 			txn.DatasetEntities[gets(pm, "ds")] = ents
 		}
-		if err := r.h.Store.ExecuteTransaction(txn); err != nil {
+		st := r.h.Store
+		if getb(op, "ctx") {
+			// what a JavaScript transform's ExecuteTransaction() does: the transaction goes through the
+			// job's contextual store (jobs/transform.go: server.NewContextualStore)
+			st = r.contextual()
+		}
+		if err := st.ExecuteTransaction(txn); err != nil {
 			op["rc"] = "err"
 			op["errtext"] = err.Error()
 		} else if first != nil {
@@ -75,6 +81,9 @@ func (r *histRun) noteWrite(i int, op M) {
 // of the two writes one after the other. `order` tells the model which one committed first.
 func (r *histRun) storeRaced(i int, op M, race M) {
 	inner := race["inner"].(map[string]interface{})
+	if getb(inner, "ctx") || getb(op, "ctx") {
+		r.contextual()
+	}
 	done := make(chan struct{})
 	fired, innerDone := false, false
 	server.VerifAtPoint(gets(race, "point"), geti(race, "hit"), func() {
@@ -171,6 +180,12 @@ func (g *storeGen) racedWrite(pts crashPoints) M {
 		return M{"op": "store", "ds": g.dss[r.Intn(len(g.dss))], "ents": batch()}
 	}
 	outer, inner := write(true), write(true)
+	if inner["op"] == "txn" && r.Intn(2) == 0 {
+		inner["ctx"] = true // issued by a JavaScript transform
+	}
+	if outer["op"] == "txn" && r.Intn(4) == 0 {
+		outer["ctx"] = true
+	}
 	if r.Intn(5) == 0 {
 		// a batch the hub rejects after it has already drawn identifiers (a null reference)
 		b := batch()
@@ -195,4 +210,13 @@ func (g *storeGen) racedWrite(pts crashPoints) M {
 	g.ids = append(g.ids, fresh...)
 	outer["race"] = M{"point": point, "hit": 1, "inner": inner, "afterCommit": after}
 	return outer
+}
+
+// contextual returns the contextual store of the current hub. A job's pipeline (and with it the contextual store
+// of its transform) is built when the job is loaded or triggered; here: before the raced writers start.
+func (r *histRun) contextual() *server.Store {
+	if r.ctxStore == nil || r.ctxOf != r.h {
+		r.ctxStore, r.ctxOf = server.NewContextualStore(r.h.Store), r.h
+	}
+	return r.ctxStore
 }
